@@ -82,6 +82,7 @@ type txResult struct {
 	herr   string // harness side problem (setup)
 	life   time.Duration
 	detach bool // the harness saw the pipe detach after macat exited
+	diag   string
 }
 
 var addrForms = []string{
@@ -217,23 +218,29 @@ func runTx(c txCase) (res txResult) {
 	rdone := make(chan struct{})
 	go func() {
 		defer close(rdone)
+		// The loop ends with a Recv call that was STARTED after stop was set and that
+		// timed out.  (A Recv that was already pending when stop was set may report a
+		// timeout although a message is queued - both select cases ready - so its
+		// timeout proves nothing.)
+		armed := false
 		for {
 			m, err := pe.sock.Recv()
 			if err == nil {
 				mu.Lock()
 				res.got = append(res.got, m)
 				mu.Unlock()
+				armed = false
 				continue
 			}
 			if err != mangos.ErrRecvTimeout {
 				return
 			}
-			mu.Lock()
-			s := stop
-			mu.Unlock()
-			if s {
+			if armed {
 				return
 			}
+			mu.Lock()
+			armed = stop
+			mu.Unlock()
 		}
 	}()
 
@@ -251,6 +258,13 @@ func runTx(c txCase) (res txResult) {
 		res.stderr = p.stderrText()
 		// everything macat wrote before exiting is queued once the pipe has detached
 		res.detach = pe.waitDetach(5 * time.Second)
+		rel := func(ns int64) string {
+			if ns == 0 {
+				return "never"
+			}
+			return time.Unix(0, ns).Sub(p.t0).Round(time.Millisecond).String()
+		}
+		res.diag = fmt.Sprintf("harness pipe attached at +%s, detached at +%s", rel(pe.tAtt.Load()), rel(pe.tDet.Load()))
 	}
 	mu.Lock()
 	stop = true
@@ -273,7 +287,7 @@ func checkTx(c txCase, r txResult, want int) (class, msg string) {
 		}
 	}
 	if len(r.got) != want {
-		return "count", fmt.Sprintf("received %d messages, %d requested (exit %d, life %v, pipe detach seen %v, stderr: %s)", len(r.got), want, r.exit, r.life.Round(time.Millisecond), r.detach, r.stderr)
+		return "count", fmt.Sprintf("received %d messages, %d requested (exit %d, life %v, pipe detach seen %v, %s, stderr: %s)", len(r.got), want, r.exit, r.life.Round(time.Millisecond), r.detach, r.diag, r.stderr)
 	}
 	return "", ""
 }
